@@ -356,7 +356,9 @@ def umDatetime (_today : Int) (v : Val) : R Val :=
       | some s =>
         match parseTemporal? s with
         | some (.dateOnly o) => .ok (.datetime ((o - epochOrd) * usPerDay) 0)
-        | some (.dateTime us off) => if instantOk us then .ok (.datetime us (off.getD 0)) else .error .unsupported
+        | some (.dateTime us off) =>
+          -- the text carries the local wall clock: only the *local* date must be within 0001..9999
+          if inDateRange (localOrd us (off.getD 0)) then .ok (.datetime us (off.getD 0)) else .error .unsupported
         | some (.number n) =>
           if instantOk ((n : Int) * usPerSec) then .ok (.datetime ((n : Int) * usPerSec) 0) else .error .unsupported
         | some (.duration _) => .error .value
